@@ -17,6 +17,13 @@ Judge(ev) ==
     THEN LET want == SC!Script(o.m, ev.cfs, ev.pc, ev.s, S!Parse(Enabled, o.m, ev.s, ev.pl)) IN
          IF want = <<>> THEN {V("C02", "ScriptMissingCompress")}      \* the algorithm needs a compression the code never did
          ELSE IF want = ev.out THEN {} ELSE {V("C02", "Script")}
+  \* gost-yescrypt relative to the library's own yescrypt result for the same parameters (yprev, verified)
+  ELSE IF o.k \in {"ok", "either"} /\ o.m = "gost_yescrypt" /\ Success(ev) /\ ev.yprev > 0 /\ ev.yprev < l
+          /\ T[ev.yprev].ph = ev.ph /\ T[ev.yprev].s = S!S_y \o S!Drop(ev.s, 4) /\ Success(T[ev.yprev])
+    THEN LET pr == S!Parse(Enabled, o.m, ev.s, ev.pl)
+             want == SC!GostYescrypt(ev.cfs, ev.pc, pr.canon, T[ev.yprev].out) IN
+         IF want = <<>> THEN {V("C02", "ScriptMissingCompress")}
+         ELSE IF want = ev.out THEN {} ELSE {V("C02", "GostScript")}
   ELSE {}
 Init == l = 1 /\ viol = {} /\ cnt = 0
 Next == /\ l <= Len(T) /\ l' = l + 1
